@@ -40,7 +40,7 @@ for pid in ids:
 
 manifest = dict(
     version=1,
-    setup_cmd='bash coq/build.sh',
+    setup_cmd='bash setup.sh',
     hooks=dict(guard='ELFI_VERIF',
                enable='no source hooks are needed: the harness drives the public/anchored entry points of /repo directly (PYTHONPATH=/repo); ELFI_VERIF is reserved and unused',
                baseline_off_cmd='cd /repo && /venv/bin/python -m pytest -ra -q -p no:cacheprovider --timeout=900 --continue-on-collection-errors',
